@@ -77,6 +77,12 @@ def run(repo, chk):
                        'before left.to(r_out); folded only when both sides are primitive')
     chk.rule('C02.T7', 'defeat functions use the variable defeat word; is_defeat/truth_is_defeat jump through effective_defeat')
     gf = GenFacts(repo)
+    # every Turing-jump decision (undo, preempt, ??) rests on branch targets re-checking the exact inverse condition
+    chk.rule('C02.T8', 'the inverse-halt table is the exact logical involution and mnemonics are right (shared with C03.J3)')
+    if chk.__class__.__name__ == 'Check':
+        from . import c03
+        from ..report import Remap
+        c03.run(repo, Remap(chk, {'C03.J3': 'C02.T8'}))
 
     # ------------------------------------------------------------------ try arms
     tp = arm_paths(gf, 'gen_block', 'TryBlock')
